@@ -197,6 +197,14 @@ func c09Accepted(mode int) {
 	for i := range all {
 		verifrt.Assert(all[i].Service != "" && all[i].GracePeriodSeconds >= 0, "C09.accepted.trafficService")
 		verifrt.Assert(all[i].Ingress != nil || all[i].Gateway != nil || all[i].CustomNetworkRefs != nil, "C09.accepted.trafficProvider")
+		// the providers dereference these without a check (gateway.go: *conf.HTTPRouteName; ingress.go: conf.Name as
+		// the object key)
+		if all[i].Gateway != nil {
+			verifrt.Assert(all[i].Gateway.HTTPRouteName != nil && *all[i].Gateway.HTTPRouteName != "", "C09.accepted.gatewayRouteNamed")
+		}
+		if all[i].Ingress != nil {
+			verifrt.Assert(all[i].Ingress.Name != "", "C09.accepted.ingressNamed")
+		}
 	}
 }
 
